@@ -35,8 +35,9 @@ type composed struct {
 	c        *eng.Chooser
 	shared   rjson.Buffer
 	vr       rjson.ValueReader
-	partial  bool // some value was skipped rather than read
-	usedFast bool // SkipValueFast was used (non-validating)
+	scratch  []byte // one scratch buffer shared by all ReadString/shared calls of this decoder
+	partial  bool   // some value was skipped rather than read
+	usedFast bool   // SkipValueFast was used (non-validating)
 	actions  []string
 }
 
@@ -76,7 +77,7 @@ func (d *composed) value(data []byte, inHandler bool) (interface{}, int, error) 
 	case rjson.NumberType:
 		act = with("ReadFloat64", "DecodeFloat64")
 	case rjson.StringType:
-		act = with("ReadString", "ReadStringBytes", "DecodeString")
+		act = with("ReadString", "ReadStringBytes", "DecodeString", "ReadString/shared-scratch", "DecodeString/shared-scratch")
 	case rjson.ObjectStartType, rjson.ArrayStartType:
 		act = with("Handle/shared", "Handle/own", "Handle/nil", "ValueReader.ReadValue", "ReadValue")
 	default:
@@ -105,6 +106,12 @@ func (d *composed) value(data []byte, inHandler bool) (interface{}, int, error) 
 		return f, p, err
 	case "ReadString":
 		return rjson.ReadString(data, nil)
+	case "ReadString/shared-scratch":
+		return rjson.ReadString(data, &d.scratch)
+	case "DecodeString/shared-scratch":
+		var s string
+		p, err := rjson.DecodeString(data, &s, &d.scratch)
+		return s, p, err
 	case "ReadStringBytes":
 		b, p, err := rjson.ReadStringBytes(data, nil)
 		return string(b), p, err
